@@ -86,6 +86,11 @@ int main(int argc, char** argv) {
   }
   { Unit u; u.name = "alg.svd0"; u.total = 32; u.maxcrash = 64; u.fmt = svd0_fmt; u.f = svd0_case; run_unit(u, 2); }
   { Unit u; u.name = "alg.gsomn"; u.total = 24; u.maxcrash = 64; u.fmt = gsomn_fmt; u.f = gsomn_case; run_unit(u, 3); }
+  for (int cfg = 0; cfg < 2; cfg++) {
+    if (g().want_unit.empty() && cfg == 1 && !th) continue;      // the larger configuration runs in the thorough tier only (replayable in both)
+    BI_CFG = cfg; Unit u; u.name = cfg ? "alg.bandinvx" : "alg.bandinv"; u.total = bandinv_total();
+    u.fmt = [=](long long k) { BI_CFG = cfg; return bandinv_fmt(k); }; u.f = [=](long long k) { BI_CFG = cfg; bandinv_unit_case(k); }; run_unit(u, cfg ? 256 : 64);
+  }
   { Unit u; u.name = "alg.cond"; u.total = cond_total(); u.fmt = cond_fmt; u.f = cond_case; run_unit(u, 4); }
 #endif
 #if LIBMC15_PART == 3
